@@ -1227,7 +1227,7 @@ fn main() {
     let mut streams: Vec<(i64, Vec<VLine>, serde_json::Value)> = vec![];
     let mut sized = 0;
     for (i, c) in all.iter().enumerate() {
-        if i % 4 == 0 || i < 4 {
+        if i % (if thorough { 8 } else { 4 }) == 0 || i < 4 {
             let c3 = c.clone();
             res.oracle_checks += 1;
             res.bump("render_passes");
@@ -1243,7 +1243,7 @@ fn main() {
         }
         // all terminal sizes 0x0..200x60 on a sample: the S18 witness in full, some generated states on a grid
         let step = if i == 3 { 1 } else if i >= 4 && i % 97 == 5 && !c.evs.is_empty() { if thorough { 1 } else { 3 } } else { 0 };
-        if step > 0 && sized < if thorough { 40 } else { 5 } {
+        if step > 0 && sized < if thorough { 12 } else { 5 } {
             sized += 1;
             let c3 = c.clone();
             res.oracle_checks += 1;
